@@ -185,4 +185,5 @@ func runC18(c *Ctx) {
 	im := []string{"Base.Bytes", "Model.Version", "Corr.CorrC18"}
 	c.Emit("cmp", "Higher/Lower/Equal of the real Version vs Version.higher/lower/equal", im, "(Z * Z * Z * Z) * (Z * Z * Z * Z) * (bool * bool * bool)", "chk_cmp", cmpCases, cmpR, 800)
 	c.Emit("parse", "nodeVersionFromString (hook VerifParseVersion) vs Version.parse", im, "bytes * option (Z * Z * Z * Z)", "chk_parse", pc, pR, 500)
+	runSerialGate(c)
 }
